@@ -44,5 +44,5 @@ MANIFEST = {
             "43d7eca0 (F-C03-1, replayed at the time) is kept as a pinned counter-model.",
     "note": "Kernel-checked theorems are about the model. The unsuspended arm of update_certs (pre-0.16 events) inserts without revoking "
             "- excluded by hypothesis, shown by a counter-example. F-C03-1 fixed in /repo 43d7eca0.",
-    "technique": "Lean 4 proof (ghost-state invariant over histories) + source translator (body of CertAuth::process_child_revoke_key = the model's decision: gen_process_child_revoke_key_eq_model) + correspondence check (system stream) + oracle on decoded CRLs",
+    "technique": "Lean 4 proof (ghost-state invariant over histories) + source translator (body of CertAuth::process_child_revoke_key = the model's decision: gen_process_child_revoke_key_eq_model; body of KeyState::revoke = requests for exactly the certified keys: gen_revoke_eq_model, revoke_covers_certified) + correspondence check (system stream) + oracle on decoded CRLs",
 }
